@@ -17,7 +17,7 @@ pub fn meta() -> Meta {
     Meta {
         id: "C02",
         level: "exploration",
-        rule: "metamorphic relation on the real builder, enumerated completely per input family: F1 every record over {A,C,G,T,N} up to length 7 (k=5) with its reverse complement, every case mask (length<=6) and every line width; F2 the restart family L+N+R (k-mers on both sides of an N) against its reverse complement; F3 for all 30 k a repeat-free string of k+3 letters with N at every position: reverse complement, lower/alternating case, line widths 1,2,k,len-1, gzip (with and without .gz extension), CRLF line ends, header descriptions + blank lines + no final newline, an empty record in front, and the same records as FASTQ built with min-count 1 and no quality rule; F4 every ordered triple from a record pool with every subset reverse-complemented and every permutation; F4b four records with the same arms and every sequence of four middle bases (repeats included), sorted / reversed / reverse-complemented; F5 every permutation of 3 and 4 samples through build_and_merge (columns permute with the names), and reversed/rotated orders of 72 samples through `ska build --threads 8` (recursive parallel merge); F6 paired FASTQ read sets under the read filter (min-count 2, each quality rule, one base of quality 19/20 at every position of one read, k in {5,33}): reverse-complementing any read with its qualities, reversing the read order, swapping the files, moving a read between the files; F7 two alleles of one split k-mer each read exactly min-count times (3: every order of the six reads; 5: rotations of the sorted order and the alternating orders), the reads split over the two files at four points. Non-trivial = the original input has at least one split k-mer and the transformed file differs from the original.".into(),
+        rule: "metamorphic relation on the real builder, enumerated completely per input family: F1 every record over {A,C,G,T,N} up to length 7 (k=5) with its reverse complement, every case mask (length<=6) and every line width; F2 the restart family L+N+R (k-mers on both sides of an N) against its reverse complement; F3 for all 30 k a repeat-free string of k+3 letters with N at every position: reverse complement, lower/alternating case, line widths 1,2,k,len-1, gzip (with and without .gz extension, and the records twice as a two-member gzip), CRLF line ends, header descriptions + blank lines + no final newline, an empty record in front, and the same records as FASTQ built with min-count 1 and no quality rule; F4 every ordered triple from a record pool with every subset reverse-complemented and every permutation; F4b four records with the same arms and every sequence of four middle bases (repeats included), sorted / reversed / reverse-complemented; F5 every permutation of 3 and 4 samples through build_and_merge (columns permute with the names), and reversed/rotated orders of 72 samples through `ska build --threads 8` (recursive parallel merge); F6 paired FASTQ read sets under the read filter (min-count 2, each quality rule, one base of quality 19/20 at every position of one read, k in {5,33}): reverse-complementing any read with its qualities, reversing the read order, swapping the files, moving a read between the files; F7 two alleles of one split k-mer each read exactly min-count times (3: every order of the six reads; 5: rotations of the sorted order and the alternating orders), the reads split over the two files at four points. Non-trivial = the original input has at least one split k-mer and the transformed file differs from the original.".into(),
         assumptions: vec!["a file without split k-mers may be refused; refusal is treated as the empty dictionary on both sides".into()],
         exhaustive_when_uncapped: true,
     }
@@ -264,6 +264,7 @@ pub fn run(ctx: &Ctx, rep: &mut Report) {
                         }
                         c.relate(&orig, &recs, "gzip", &gz(&scratch::fasta(&recs)), "c02b.fa.gz");
                         c.relate(&orig, &recs, "gzip without extension", &gz(&scratch::fasta(&recs)), "c02b_plain");
+                        c.relate(&orig, &[recs.clone(), recs.clone()].concat(), "the records twice, gzip in two members", &scratch::gz_two_members(&scratch::fasta(&[recs.clone(), recs.clone()].concat()), 2), "c02c.fa.gz");
                         for how in 0..4 {
                             c.relate(&orig, &recs, ["CRLF line ends", "header descriptions, blank lines, no final newline", "empty record in front", "CRLF and wrapped"][how], &dress(&recs, how, k - 2), "c02b.fa");
                         }
